@@ -50,7 +50,7 @@ def is_leaf(d):
     return not any(refs(f["type"]) for f in d["fields"])
 
 
-def pieces_of(r, tree, table, leaves_only=False):
+def pieces_of(r, tree, table, leaves_only=False, all_of=False):
     """split a random subset of the named types off into separately parsed pieces (dependencies
     first); returns (pieces, parent) as raw schemas, `parent` referring to the split types by name"""
     root = tree.get("$ref") if isinstance(tree, dict) else None
@@ -61,7 +61,7 @@ def pieces_of(r, tree, table, leaves_only=False):
         names = [n for n in names if is_leaf(table[n])]
         if not names:
             return None
-    subset = [n for n in names if r.random() < 0.6] or [r.choice(names)]
+    subset = list(names) if all_of else ([n for n in names if r.random() < 0.6] or [r.choice(names)])
 
     def deps(n, seen):
         out = []
@@ -208,8 +208,13 @@ def ops(schema_obj, data, seed):
     # generation from the library's random source
     try:
         from fastavro.utils import generate_one
+        import hashlib
+        import impl
         random.seed(seed)
-        out["generate"] = canon(to_wire(generate_one(schema_obj)))
+        v = impl.limited(lambda: generate_one(schema_obj), 30)
+        text = repr(v)
+        # a very large value is compared by the digest of its text (the harness's own encoding of it would take minutes)
+        out["generate"] = canon(to_wire(v)) if len(text) < 300000 else "BIG:%d:%s" % (len(text), hashlib.sha1(text.encode()).hexdigest())
     except Exception as e:  # noqa
         out["generate"] = "ERR:" + exc_class(e)
     return out
@@ -238,12 +243,67 @@ def observable(op, res):
     return err(res)
 
 
+def resolution_family(run):
+    """schema resolution with writer and reader schema in every form: the outer text of the two schemas is the same,
+    the types split off into separately parsed pieces differ (a field added with a default, int -> long, an enum that
+    lost a symbol and has a default); every combination of forms must give what raw / raw gives"""
+    def mk(item, state):
+        outer = {"type": "record", "name": "shop.Order", "fields": [
+            {"name": "id", "type": "long"}, {"name": "item", "type": "shop.Item"}, {"name": "state", "type": "shop.State"},
+            {"name": "more", "type": {"type": "array", "items": "shop.Item"}}, {"name": "last", "type": ["null", "shop.State"]}]}
+        raw = copy.deepcopy(outer)
+        raw["fields"][1]["type"] = copy.deepcopy(item)
+        raw["fields"][2]["type"] = copy.deepcopy(state)
+        named = {}
+        parse_schema(copy.deepcopy(item), named)
+        parse_schema(copy.deepcopy(state), named)
+        piecewise = parse_schema(copy.deepcopy(outer), named)
+        return {"raw": raw, "parsed": parse_schema(copy.deepcopy(raw)), "piecewise": piecewise}
+    w_item = {"type": "record", "name": "shop.Item", "fields": [{"name": "sku", "type": "string"}, {"name": "qty", "type": "int"}]}
+    w_state = {"type": "enum", "name": "shop.State", "symbols": ["NEW", "PAID", "RETURNED"]}
+    readers = {
+        "field-added-with-default": (dict(w_item, fields=w_item["fields"] + [{"name": "unit", "type": "string", "default": "piece"},
+                                                                             {"name": "tags", "type": {"type": "array", "items": "string"}, "default": []}]), w_state),
+        "int-to-long-and-double": (dict(w_item, fields=[{"name": "sku", "type": "string"}, {"name": "qty", "type": "double"}]), w_state),
+        "enum-lost-a-symbol": (w_item, {"type": "enum", "name": "shop.State", "symbols": ["NEW", "PAID", "OTHER"], "default": "OTHER"}),
+        "field-dropped": (dict(w_item, fields=[{"name": "qty", "type": "int"}]), w_state),
+        "same": (w_item, w_state)}
+    W = mk(w_item, w_state)
+    data = [{"id": 1, "item": {"sku": "a-1", "qty": 2}, "state": "RETURNED", "more": [{"sku": "b-7", "qty": 1}], "last": "RETURNED"},
+            {"id": 2, "item": {"sku": "", "qty": -5}, "state": "NEW", "more": [], "last": None}]
+    for rname, (r_item, r_state) in readers.items():
+        R = mk(r_item, r_state)
+        for v in data:
+            fo = io.BytesIO()
+            schemaless_writer(fo, W["raw"], v)
+            b = fo.getvalue()
+
+            def read(wf, rf):
+                try:
+                    return canon(to_wire(schemaless_reader(io.BytesIO(b), W[wf], R[rf])))
+                except Exception as e:  # noqa
+                    return "ERR:" + exc_class(e)
+            base = read("raw", "raw")
+            for wf in ("raw", "parsed", "piecewise"):
+                for rf in ("raw", "parsed", "piecewise"):
+                    case = {"schema": W["raw"], "reader": R["raw"], "value": to_wire(v), "writer_form": wf, "reader_form": rf,
+                            "tags": ["resolution", "reader:" + rname, wf + "/" + rf]}
+                    run.count(case, True, ["resolution:" + wf + "/" + rf])
+                    got = read(wf, rf)
+                    if got != base:
+                        case["with_raw"], case["with_forms"] = base, got
+                        run.fail(case, "schemaless_reader with a reader schema gives a different result with the %s writer / %s reader "
+                                       "schema than with the raw schemas" % (wf, rf), kind="oracle")
+
+
 def run(tier, seed):
     run = Run("C12", tier, seed)
     run.rule = ("schemas of the generator x {raw, parsed, parsed twice, piecewise (a random subset of the named types parsed "
                 "separately, dependencies first, against a shared dictionary; the parent refers to them by name)} x "
                 "{schemaless write/read, validate, canonical form, container write + stand-alone read, JSON write/read, "
-                "generate_one} x conforming and non-conforming data; non-trivial = schema with a named type")
+                "generate_one} x conforming and non-conforming data; a chain of five named types all split off; schema resolution with "
+                "writer and reader schema in every form (split-off types evolved: field added, promotion, enum symbol lost, field "
+                "dropped); non-trivial = schema with a named type")
     run.lean(TARGETS, THEOREMS)
     n = scale(tier, 500)
     reqs, meta = [], []
@@ -265,6 +325,20 @@ def run(tier, seed):
         {"name": "sig", "type": {"type": "fixed", "name": "Sig", "size": 2}, "default": "ab"},
         {"name": "sig2", "type": "Sig", "default": "cd"}]},
         [{"id": 1, "raw": b"\x00\xfe", "sig": b"xy", "sig2": b"zw"}]))
+    # directed: a chain of five named types, each referring to the next by name; containers and a nullable union at the end
+    chain = {"type": "record", "name": "Site", "fields": [
+        {"name": "name", "type": "string"},
+        {"name": "main", "type": {"type": "record", "name": "Building", "fields": [
+            {"name": "ground", "type": {"type": "record", "name": "Floor", "fields": [
+                {"name": "lobby", "type": {"type": "record", "name": "Room", "fields": [
+                    {"name": "desk", "type": {"type": "record", "name": "Desk", "fields": [
+                        {"name": "drawers", "type": {"type": "array", "items": "int"}},
+                        {"name": "labels", "type": {"type": "map", "values": "string"}},
+                        {"name": "owner", "type": ["null", "string"]}]}},
+                    {"name": "spare", "type": ["null", "Desk"]}]}}]}}]}}]}
+    corpus.append((chain, [{"name": "s", "main": {"ground": {"lobby": {"desk": {"drawers": [1, 2], "labels": {"a": "b"}, "owner": "o"},
+                                                                        "spare": None}}}}]))
+    n_forced = len(corpus)
     for i in range(n + len(corpus)):
         g = gen.Gen(seed * 12000017 + i, logical=(i % 3 == 0), bytes_defaults=False, hints=False)
         if i < len(corpus):
@@ -307,7 +381,7 @@ def run(tier, seed):
         if isinstance(s, dict) and s.get("type") == "record":
             try:
                 tree, table = to_tree(s)
-                pw = pieces_of(g.r, tree, table)
+                pw = pieces_of(g.r, tree, table, all_of=(i < n_forced))
             except Exception:
                 pw = None
             if pw:
@@ -352,6 +426,7 @@ def run(tier, seed):
                         c2["pieces"], c2["parent"] = split
                     if run.fail(c2, "%s gives a different result with the %s schema than with the raw schema" % (k, fname), kind="oracle") != "known":
                         break
+    resolution_family(run)
     # model: piecewise parsing registers the same names and gives a schema with the same named types
     res = run_batch(reqs) if reqs else []
     for (case, canon_raw), r in zip(meta, res):
